@@ -3,6 +3,7 @@ CONSTANTS
   MaxLive = 1
   MaxStops = 2
   Timeout = 2
+  MaxBlocks = 0
   ForcedAwaitsWorkers = FALSE
   GracefulSkipsAwait = FALSE
   CompleteBeforeJoin = FALSE
